@@ -30,6 +30,7 @@ func vGetEngine(_ context.Context, _ types.Config, _, _, _, _, _ string) (engine
 }
 
 func (e *vEngine) Info(context.Context) (*enginetypes.Info, error) {
+	defer vGuard()()
 	if e.w.fault("engine.Info") {
 		return nil, vErrInjected
 	}
@@ -39,6 +40,7 @@ func (e *vEngine) Info(context.Context) (*enginetypes.Info, error) {
 // ---- resource manager: node capacity records ----
 
 func (m *vRmgr) AddNode(_ context.Context, name string, res resourcetypes.Resources, _ *enginetypes.Info) (resourcetypes.Resources, error) {
+	defer vGuard()()
 	if m.w.fault("rmgr.AddNode") {
 		return nil, vErrInjected
 	}
@@ -47,6 +49,7 @@ func (m *vRmgr) AddNode(_ context.Context, name string, res resourcetypes.Resour
 }
 
 func (m *vRmgr) RemoveNode(_ context.Context, name string) error {
+	defer vGuard()()
 	if m.w.fault("rmgr.RemoveNode") {
 		return vErrInjected
 	}
@@ -56,6 +59,7 @@ func (m *vRmgr) RemoveNode(_ context.Context, name string) error {
 }
 
 func (m *vRmgr) GetNodeResourceInfo(_ context.Context, name string, ws []*types.Workload, fix bool) (resourcetypes.Resources, resourcetypes.Resources, []string, error) {
+	defer vGuard()()
 	if m.w.fault("rmgr.GetNodeResourceInfo") {
 		return nil, nil, nil, vErrInjected
 	}
@@ -67,6 +71,7 @@ func (m *vRmgr) GetNodeResourceInfo(_ context.Context, name string, ws []*types.
 }
 
 func (m *vRmgr) SetNodeResourceCapacity(_ context.Context, name string, _ resourcetypes.Resources, req resourcetypes.Resources, delta bool, incr bool) (resourcetypes.Resources, resourcetypes.Resources, error) {
+	defer vGuard()()
 	if m.w.fault("rmgr.SetNodeResourceCapacity") {
 		return nil, nil, vErrInjected
 	}
@@ -83,12 +88,14 @@ func (m *vRmgr) SetNodeResourceCapacity(_ context.Context, name string, _ resour
 }
 
 func (m *vRmgr) GetNodeMetrics(context.Context, *types.Node) ([]*plugintypes.Metrics, error) {
+	defer vGuard()()
 	return nil, nil
 }
 
 // ---- store: node records ----
 
 func (s *vStore) AddNode(_ context.Context, opts *types.AddNodeOptions) (*types.Node, error) {
+	defer vGuard()()
 	if s.w != nil && s.w.fault("store.AddNode") {
 		return nil, vErrInjected
 	}
@@ -99,6 +106,7 @@ func (s *vStore) AddNode(_ context.Context, opts *types.AddNodeOptions) (*types.
 }
 
 func (s *vStore) RemoveNode(_ context.Context, n *types.Node) error {
+	defer vGuard()()
 	if s.w != nil && s.w.fault("store.RemoveNode") {
 		return vErrInjected
 	}
@@ -107,6 +115,7 @@ func (s *vStore) RemoveNode(_ context.Context, n *types.Node) error {
 }
 
 func (s *vStore) UpdateNodes(_ context.Context, ns ...*types.Node) error {
+	defer vGuard()()
 	if s.w != nil && s.w.fault("store.UpdateNodes") {
 		return vErrInjected
 	}
